@@ -431,7 +431,7 @@ Qed.
 Theorem every_connection conf evs : forall nm, Forall next_good (mrun conf nm evs).
 Proof.
   induction evs as [|e evs IH]; intros [n m]; cbn [mrun]; [constructor|].
-  destruct e as [h p|now h|now]; cbn [mstep]; try apply IH.
+  destruct e as [h p|now h|now|]; cbn [mstep]; try apply IH.
   unfold getNextServer.
   assert (Hcase : forall sv rest,
     Forall next_good
